@@ -20,7 +20,7 @@ def run(cfg):
     return {
         "evaluations": n + meta.get("oracle_checked", 0),
         "distinct_nontrivial": meta.get("distinct_nontrivial", 0),
-        "rule": "EXHAUSTIVE small scope: every operation sequence of length <= 3 (thorough: <= 4, the last level compared by hash) over 4 columns x {set width 45/180, hide, unhide, set style 1/2, delete style} from each of 13 column layouts (empty, single, descriptors spanning 2-5 columns and up to column 16384, adjacent descriptors, hidden, custom_width off, zero width, descriptor at 16384 exercised on columns 16381..16384), and the same for 4 rows x 8 operations from 7 row layouts (unsorted, duplicate records, imported s without custom_format, row 1048576); after every sequence the full descriptor vector, the per-step ok flag, the per-step defect-class predicate and all getters on 8 columns / 6 rows are compared between the extracted Coq model and the implementation. Plus refused calls (column 0, -1, 16385, i32::MAX, negative sizes) on well-formed and on unsorted/overlapping layouts, plus random histories of 4-25 steps on far columns/rows. Oracle = the frame property on the implementation: getters of every observed (column, attribute) before and after the last step of every sequence. Non-trivial = distinct histories",
+        "rule": "EXHAUSTIVE small scope: every operation sequence of length <= 3 (thorough: <= 4, the last level compared by hash) over 4 columns x {set width 45/180, hide, unhide, set style 1/2, delete style} from each of 13 column layouts (empty, single, descriptors spanning 2-5 columns and up to column 16384, adjacent descriptors, hidden, custom_width off, zero width, descriptor at 16384 exercised on columns 16381..16384), and the same for 4 rows x 8 operations from 7 row layouts (unsorted, duplicate records, imported s without custom_format, row 1048576); after every sequence the full descriptor vector, the per-step ok flag (rows: also whether the step creates the record) and all getters on 8 columns / 6 rows are compared between the extracted Coq model and the implementation. Plus refused calls (column 0, -1, 16385, i32::MAX, negative sizes) on well-formed and on unsorted/overlapping layouts, plus random histories of 4-25 steps on far columns/rows. Oracle = the frame property on the implementation: getters of every observed (column, attribute) before and after the last step of every sequence (the former F23a/b/c witnesses are among the sequences; any column failure is a violation). Non-trivial = distinct histories",
         "samples": meta.get("samples", []),
         "disagreements": dis, "n_disagreements": ndis,
         "oracle_failures": meta.get("oracle_failures", []),
